@@ -386,7 +386,7 @@ def plan(tier: str):
     for i in range(0, len(singles), 12):
         items.append(("atoms", singles[i:i + 12]))
     names = [a.name for a in AT.ATOMS]
-    pairs = [((a, b), AT.PACKAGES[(i % 3) + 1]) for i, (a, b) in enumerate(itertools.combinations(names, 2))]
+    pairs = [((a, b), AT.PACKAGES[(i % 3) + 1]) for i, (a, b) in enumerate(AT.compatible_pairs(names))]
     if tier == "quick":
         risky = {"msg_typing_names", "msg_builtin_names", "field_builtins", "field_keywords", "nested_3",
                  "recursive_mutual", "wkt_time", "wkt_wrappers", "maps_mixed", "oneof_mixed", "optional_mixed",
